@@ -768,7 +768,7 @@ func (g *gctx) special(d int) string {
 	dyn := func() string { // something that makes the scope dynamic or captures bindings
 		return g.pick(`eval("")`, `eval("`+v+`")`, `eval("var `+w+` = 1")`, "(() => "+v+")()", "with (o) { "+v+" }", "(function() { return "+v+" })()", "0")
 	}
-	switch g.r.Intn(27) {
+	switch g.r.Intn(29) {
 	case 0, 1: // switch + lexical declaration + dynamic scope / closures
 		decl := g.pick("let "+v+" = "+e(), "const "+v+" = "+e(), "class "+v+" {}", "let ["+v+"] = [1]", "function "+v+"() {}", "let "+v)
 		if g.strict && strings.Contains(decl, "function") {
@@ -981,6 +981,18 @@ func (g *gctx) special(d int) string {
 			boundary,
 		)
 		return outer
+	case 26, 27: // stores to a named function / class expression's own (immutable) name, in used and discarded positions
+		n := "fn" + v
+		st := g.pick(n+" = "+e(), n+"++", "--"+n, n+" += 1", n+" ??= 1", n+" &&= 0", n+" ||= 1", "["+n+"] = [1]", "({p: "+n+"} = o)", n+" = "+n+" = 2", "typeof "+n, "delete "+n)
+		use := g.pick("("+st+", 2);", "return [("+st+", 2), 3];", st+";", "return "+st+";", "["+st+", ("+st+", 1)];", "f(("+st+", 1), "+st+");", "for ("+st+"; y++ < 2; "+st+") ;", "for ("+n+" of arr) ;", "for ("+n+" in o) ;",
+			"if (("+st+", 0)) ; else ("+st+");", "`${("+st+", 1)}`;", "(() => { "+st+"; return ("+st+", 1) })();", "try { "+st+" } finally { ("+st+", 1) }", "x = ("+st+", "+st+", 3);", "eval(\""+n+" = 1, 2\");", "with (o) { "+st+", 1 }")
+		if g.strict {
+			use = strings.ReplaceAll(use, "with (o) ", "")
+		}
+		us := g.pick("", "", "\"use strict\"; ")
+		return "try { " + g.pick("(function "+n+"(p0) { "+us+use+" })(1);", "(function* "+n+"() { "+us+use+" })().next();", "(async function "+n+"() { "+us+use+" })();",
+			"var q"+v+" = function "+n+"() { "+us+use+" }; q"+v+"();", "(class "+n+" { static m() { "+use+" } }).m();", "(class "+n+" { static { "+strings.ReplaceAll(use, "return ", "")+" } });",
+			"({m: function "+n+"() { "+us+use+" }}).m();", "new (function "+n+"() { "+us+use+" });") + " } catch (e) {}"
 	default: // arguments object, rest, mapped arguments with eval
 		return "(function(p0, p1) { " + g.pick(`"use strict"; `, "") + g.pick("arguments[0] = 2;", "p0 = 3;", `eval("p0 = 4");`, "delete arguments[0];", "arguments.length = 0;", "(() => arguments)();") + " return " + g.pick("p0 + arguments[0]", "[...arguments]", "arguments.callee", "f(...arguments)") + "; })(" + g.args(d) + ");"
 	}
